@@ -2,7 +2,7 @@
    l<fl>:<cb> wi<fd>:<cond>:<fl>:<cb> ws<sig>:<fl>:<cb> c<id> e<n> k<sig> - and the ops r0 o
    R<fd>:<revents> K<sig>, the action s (tickit_stop) and the op u<k> (tickit_run, stopped by the
    harness in its k-th ppoll at the latest).  A case that starts with the token F runs the self-pipe fallback under
-   a custom loop (model LoopPipeDefs.f_run, oracle LoopPipeSpec.fb_checkb; ops r0 and B<sig>).  model = LoopSigDefs.srun fixed_cfg (VERIF_C18_PINNED=1: the
+   a custom loop (model LoopPipeDefs.f_run, oracle LoopPipeSpec.fb_checkb and LoopPipeSnap.yspec_checkb; ops r0 and B<sig>).  model = LoopSigDefs.srun fixed_cfg (VERIF_C18_PINNED=1: the
    pinned behaviour of defects #24/#25); oracle = LoopSigSpec.xspec_checkb. *)
 let zi = z_of_int
 let rec nat_of_int n = if n <= 0 then O else S (nat_of_int (n - 1))
@@ -97,7 +97,9 @@ let oracle line =
       let (env, ops) = parse_fcase c in
       match (try Some (parse_obs o) with _ -> None) with
       | None -> "BAD unreadable observation"
-      | Some obs -> if fb_checkb env ops obs then "OK" else "BAD a delivered signal did not reach its watchers in time (or a watcher ran without its signal)"
+      | Some obs ->
+        if not (fb_checkb env ops obs) then "BAD a delivered signal did not reach its watchers in time (or a watcher ran without its signal)"
+        else if yspec_checkb env ops obs then "OK" else "BAD differs from the fallback's snapshot specification: " ^ pr_obs (yspec_run env ops)
     end else
     let (env, ops) = parse_case c in
     (match (try Some (parse_obs o) with _ -> None) with
